@@ -10,10 +10,18 @@ ExcelValues).  TLC checks on every formula that an independent
 minimal-parentheses printer inverts the parser and that wrapping any
 sub-expression in parentheses leaves the tree unchanged.
 
+Function calls: SUM and IF take values; ROW and COLUMN take a reference,
+OFFSET takes a reference and two values and denotes a reference, LEN counts
+the characters of a text wherever it stands.  The generator keeps reference
+positions and value positions apart, the reference semantics evaluates the one
+to a cell and the other to a value.  References are cells of the sheet of the
+formula and of sheets whose names hold special characters ('US$'!A1).
+
 Binding: every exported (tokens, sub-expression spans, value per environment)
-is rendered in several spellings (plain; spaces between tokens; function names
-and TRUE/FALSE in other case; a redundant pair of parentheses around a random
-sub-expression; all of these together), compiled with ExcelFormula and
+is rendered in several spellings (plain; spaces between tokens, references
+with $ markers; function names and TRUE/FALSE in other case; a redundant pair
+of parentheses around a random sub-expression; all of these together),
+compiled with ExcelFormula and
 evaluated through ExcelFormula.build_eval_context, and also placed in a
 workbook and evaluated with ExcelCompiler.evaluate with the referenced cells
 set per the environment.  The result must be the spec value (numbers within
@@ -29,7 +37,7 @@ import threading
 from collections import Counter
 
 from harness import tlc, xl
-from harness.checks.c10 import JVM, brief, mismatch, show, text_of, py_variants
+from harness.checks.c10 import JVM as JVM10, brief, mismatch, show, text_of, py_variants
 from harness.evidence import Verdict
 
 PID = 'C02'
@@ -37,39 +45,72 @@ CHUNK = 500
 # proposed known finding: a text literal spelled like an error value (or like
 # pycel's empty-operand sentinel) is taken for that error value (for blank)
 FINDING_ERROR_TEXT = 'C02_r3_2'
-COST = {'P': 1, 'S': 1, 'I3': 1, 'I2': 3, 'I1': 5}
+# deeply nested formulas make deep recursions of the parser and the evaluator
+JVM = {'JAVA_TOOL_OPTIONS': JVM10['JAVA_TOOL_OPTIONS'] + ' -Xss32m'}
+
+# the generator's bracket frames (spec/Formula.tla: stk)
+COST = {'P': 1, 'S': 1, 'I3': 1, 'I2': 3, 'I1': 5, 'O3': 1, 'O2': 3, 'O1': 5, 'R': 1, 'Q': 1}
+FRAME = {'SUM(': 'S', 'IF(': 'I1', 'OFFSET(': 'O1', 'ROW(': 'R', 'COLUMN(': 'R', 'LEN(': 'P'}
+REFPOS = ('R', 'Q', 'O1')             # the innermost bracket wants a reference
+NEXTARG = {'S': 'S', 'I1': 'I2', 'I2': 'I3', 'O1': 'O2', 'O2': 'O3'}
+CLOSABLE = ('P', 'S', 'I3', 'O3', 'R', 'Q')
+ALL_CALLS = tuple(FRAME)
 
 ALL_BINARY = ['^', '*', '/', '+', '-', '&', '=', '<>', '<', '<=', '>', '>=']
 CFG = {
     # name: constants of the run (mirrors spec/Formula_*.cfg)
     'prec': dict(Operands='PrecOperands', Binary='AllBinary', Prefix='{"u-", "u+"}',
                  Postfix='{"%"}', Calls='{"SUM(", "IF("}', Parens='TRUE',
-                 counts=dict(nopnd=3, nbin=12, npre=2, npost=1,
+                 counts=dict(nopnd=3, nref=0, nbin=12, npre=2, npost=1,
                              calls=('SUM(', 'IF('), parens=True)),
-    'lit': dict(Operands='AllOperands', Binary='LitBinary', Prefix='{"u-"}',
+    'lit': dict(Operands='LitOperands', Binary='LitBinary', Prefix='{"u-"}',
                 Postfix='{"%"}', Calls='{}', Parens='FALSE',
-                counts=dict(nopnd=39, nbin=4, npre=1, npost=1, calls=(), parens=False)),
+                counts=dict(nopnd=39, nref=2, nbin=4, npre=1, npost=1, calls=(),
+                            parens=False)),
+    # the second pool of literals and references, the functions of one argument
+    'ext': dict(Operands='ExtPool', Binary='LitBinary', Prefix='{"u-"}',
+                Postfix='{"%"}', Calls='ExtCalls', Parens='FALSE',
+                counts=dict(nopnd=14, nref=6, nbin=4, npre=1, npost=1,
+                            calls=('ROW(', 'COLUMN(', 'LEN('), parens=False)),
+    # values nested in reference arguments, references produced by calls
+    'nest': dict(Operands='NestOperands', Binary='{}', Prefix='{"u-"}',
+                 Postfix='{}', Calls='NestCalls', Parens='FALSE',
+                 counts=dict(nopnd=2, nref=1, nbin=0, npre=1, npost=0,
+                             calls=('ROW(', 'OFFSET('), parens=False)),
+    # a text that looks like generated code, counted inside reference arguments
+    'code': dict(Operands='CodeOperands', Binary='{}', Prefix='{}',
+                 Postfix='{}', Calls='CodeCalls', Parens='FALSE',
+                 counts=dict(nopnd=3, nref=1, nbin=0, npre=0, npost=0,
+                             calls=('ROW(', 'OFFSET(', 'LEN('), parens=False)),
     'sim': dict(Operands='AllOperands', Binary='AllBinary', Prefix='{"u-", "u+"}',
-                Postfix='{"%"}', Calls='{"SUM(", "IF("}', Parens='TRUE', counts=None),
+                Postfix='{"%"}', Calls='AllCalls', Parens='TRUE', counts=None),
+    'ref': dict(Operands='RefOperands', Binary='RefBinary', Prefix='{"u-"}',
+                Postfix='{}', Calls='AllCalls', Parens='TRUE', counts=None),
 }
 
 
 def cfg_text(name, maxlen, minexport, invariants):
     c = CFG[name]
+
+    def bind(const):        # a set written out, or the name of a definition of MC_Formula
+        val = c[const]
+        return f'  {const} = {val}' if val.startswith('{') else f'  {const} <- {val}'
     lines = ['CONSTANTS',
-             f'  Operands <- {c["Operands"]}', f'  Binary <- {c["Binary"]}',
-             f'  Prefix = {c["Prefix"]}', f'  Postfix = {c["Postfix"]}',
-             f'  Calls = {c["Calls"]}', f'  Parens = {c["Parens"]}',
+             f'  Operands <- {c["Operands"]}', bind('Binary'),
+             bind('Prefix'), bind('Postfix'), bind('Calls'), f'  Parens = {c["Parens"]}',
              f'  MaxLen = {maxlen}', f'  MinExport = {minexport}',
-             '  Lit <- MCLit', '  LitDev <- MCLitDev', '  Refs <- MCRefs', '  Envs <- MCEnvs',
+             '  Lit <- MCLit', '  LitDev <- MCLitDev', '  Refs <- MCRefs',
+             '  RefAt <- MCRefAt', '  Envs <- MCEnvs',
              'SPECIFICATION Spec']
     lines += [f'INVARIANT {i}' for i in invariants]
     return '\n'.join(lines) + '\n'
 
 
-def count_formulas(nopnd, nbin, npre, npost, calls, parens, maxlen):
+def count_formulas(nopnd, nref, nbin, npre, npost, calls, parens, maxlen):
     """(states, complete formulas) of the generator, counted independently
-    of TLC by dynamic programming over (expecting-operand, bracket stack)"""
+    of TLC by dynamic programming over (expecting-operand, bracket stack);
+    nref of the nopnd operands are references (all that a reference position
+    admits besides a parenthesis and OFFSET)"""
     cur = Counter({(True, ()): 1})
     states, complete = 1, 0
     for ln in range(maxlen):
@@ -77,29 +118,33 @@ def count_formulas(nopnd, nbin, npre, npost, calls, parens, maxlen):
         for (expect, stk), c in cur.items():
             def room(e, s):
                 return ln + 1 + (1 if e else 0) + sum(COST[f] for f in s) <= maxlen
+            refpos = bool(stk) and stk[-1] in REFPOS
             if expect:
                 if room(False, stk):
-                    nxt[(False, stk)] += c * nopnd
-                if room(True, stk):
+                    nxt[(False, stk)] += c * (nref if refpos else nopnd)
+                if not refpos and room(True, stk):
                     nxt[(True, stk)] += c * npre
-                if parens and room(True, stk + ('P',)):
-                    nxt[(True, stk + ('P',))] += c
+                fr = 'Q' if refpos else 'P'
+                if parens and room(True, stk + (fr,)):
+                    nxt[(True, stk + (fr,))] += c
                 for f in calls:
-                    fr = 'S' if f == 'SUM(' else 'I1'
-                    if room(True, stk + (fr,)):
-                        nxt[(True, stk + (fr,))] += c
+                    if refpos and f != 'OFFSET(':
+                        continue
+                    if room(True, stk + (FRAME[f],)):
+                        nxt[(True, stk + (FRAME[f],))] += c
             else:
-                if room(False, stk):
-                    nxt[(False, stk)] += c * npost
-                if room(True, stk):
-                    nxt[(True, stk)] += c * nbin
-                if stk and stk[-1] in ('S', 'I1', 'I2'):
-                    s2 = stk[:-1] + ({'S': 'S', 'I1': 'I2', 'I2': 'I3'}[stk[-1]],)
+                if not refpos:
+                    if room(False, stk):
+                        nxt[(False, stk)] += c * npost
+                    if room(True, stk):
+                        nxt[(True, stk)] += c * nbin
+                if stk and stk[-1] in NEXTARG:
+                    s2 = stk[:-1] + (NEXTARG[stk[-1]],)
                     if room(True, s2):
                         nxt[(True, s2)] += c
-                if stk and stk[-1] in ('P', 'S', 'I3'):
+                if stk and stk[-1] in CLOSABLE:
                     nxt[(False, stk[:-1])] += c
-        cur = nxt
+        cur = Counter({k: n for k, n in nxt.items() if n})
         states += sum(cur.values())
         complete += sum(c for (e, s), c in cur.items() if not e and not s)
     return states, complete
